@@ -13,6 +13,13 @@ CHECKS = {
             "slot/duplicate/lease/leak/open-count/exception-class invariants are evaluated after every transition on the real objects.",
             "simnet socket stand-in (close()/makefile() release semantics), stub TLS for https kinds, environment answer menus listed in the evidence; bounds: deviation and depth per pass as recorded.",
             "DESIGN.md §3 C01"),
+    "C02": ("model_checking",
+            "stateless preemption-bounded schedule exploration of real threads on the real pool (controlled scheduler, simnet)",
+            "Real threads run urlopen/close on one real pool under a scheduler that owns every interleaving decision (LINE events in the pool's shared-state functions + every queue stand-in operation); "
+            "every schedule within the preemption bound is executed and checked for exclusive leases, the block=True open-socket bound, progress (deadlock detection), "
+            "own-tagged responses, ClosedPoolError-only failures under a racing close(), and socket reclamation after the pool is dropped.",
+            "CPython GIL memory model at source-line granularity; queue.LifoQueue replaced by a sequentially equivalent stand-in (checked at start-up); simnet sockets.",
+            "DESIGN.md §3 C02"),
     "C03": ("model_checking",
             "exhaustive enumeration of request histories x server behaviours x caller behaviours on the real pool (simnet), tagged-payload oracle",
             "All histories of 2 (thorough: 3) requests over a step alphabet of method x server behaviour x segmentation x caller behaviour on 6 pool shapes; "
